@@ -3,7 +3,8 @@
 (*                                                                                                              *)
 (* Mode "toy1"/"toy2": two 9-bit minifloat formats (4 exponent bits, 4 mantissa bits; mantissa in one limb /    *)
 (*   in two limbs, so both limb code paths of FloatOps are exercised).  ALL 512 values and ALL 262 144 pairs    *)
-(*   are enumerated and every exact operator is compared with an independent DECLARATIVE definition on the       *)
+(*   (Tier "quick": every value x 7/16 of the second operands) are enumerated and every exact operator is        *)
+(*   compared with an independent DECLARATIVE definition on the                                                  *)
 (*   exact value  (the value scaled by 2^(bias+P-1) is an integer < 2^18):  floor/ceil/trunc/round/rint by       *)
 (*   integer division, fmod/remainder by  %  on the scaled integers, nextafter by "no value in between",         *)
 (*   UlpLE by the integer key, fdim by subtraction.                                                              *)
